@@ -333,8 +333,8 @@ func xtalkInstances(tier string) []Instance {
 
 func init() {
 	register(&Check{ID: "C05",
-		Rule: "two (three in thorough) concurrent client threads on one manager with 3 nodes: every ordered pair over {quorum call, async, correctable, correctable stream, RPC, multicast} on equal or overlapping configurations ({1,2} vs {1,2} / {2,3}), with and without a cancel event for the first call, plus back-to-back calls of one thread concurrent with another thread (thresholds 1 and 2); every handler releases early and is gated individually, and the script opens the gates and fires the cancel in every order at quiescent points (so replies arrive after their call returned or was cancelled); all schedules within the deviation bound; plus the queued-request fault family of C07 (error delivered at most once per node); oracle: every reply shown to a quorum function or returned carries the observer's own call token and the node id it is filed under, at most one reply per node and call, nothing observed after return, one message id per call; an outcome is (instance, event order)",
-		Gen:  xtalkInstances,
+		Rule:        "two (three in thorough) concurrent client threads on one manager with 3 nodes: every ordered pair over {quorum call, async, correctable, correctable stream, RPC, multicast} on equal or overlapping configurations ({1,2} vs {1,2} / {2,3}), with and without a cancel event for the first call, plus back-to-back calls of one thread concurrent with another thread (thresholds 1 and 2); every handler releases early and is gated individually, and the script opens the gates and fires the cancel in every order at quiescent points (so replies arrive after their call returned or was cancelled); all schedules within the deviation bound; plus the queued-request fault family of C07 (error delivered at most once per node); oracle: every reply shown to a quorum function or returned carries the observer's own call token and the node id it is filed under, at most one reply per node and call, nothing observed after return, one message id per call; an outcome is (instance, event order)",
+		Gen:         xtalkInstances,
 		Assumptions: []string{"puppet servers stamp every reply with (call token, node, sequence); transport is the fakegrpc model"},
 	})
 }
